@@ -250,12 +250,18 @@ ADD14 = {
  "C17": " The proxy's pump reads the client through the connection it was given, never from the connection below the wrappers.",
 }
 
+ADD15 = {
+ "C03": " halfCloser is also evaluated on every concrete type a handler passes to Connection.Wrap (over a TCP socket the half-close reaches the socket; the tee branch's wrapper, by name, reaches nothing).",
+ "C04": " The bound on make applies to the capacity (make([]T, 0, n) allocates n); sums of lengths of existing objects count as existing.",
+ "C08": " No atomic Store/Swap of a value derived from an atomic Load of the same variable (lost update): read-modify-write only through Add/CompareAndSwap.",
+}
+
 checks = []
 for p in props:
     if p["id"] not in CLAIMS:
         continue
     tech, text, ref = CLAIMS[p["id"]]
-    text = text + ADD6.get(p["id"], "") + ADD7.get(p["id"], "") + ADD8.get(p["id"], "") + ADD9.get(p["id"], "") + ADD10.get(p["id"], "") + ADD11.get(p["id"], "") + ADD12.get(p["id"], "") + ADD13.get(p["id"], "") + ADD14.get(p["id"], "")
+    text = text + ADD6.get(p["id"], "") + ADD7.get(p["id"], "") + ADD8.get(p["id"], "") + ADD9.get(p["id"], "") + ADD10.get(p["id"], "") + ADD11.get(p["id"], "") + ADD12.get(p["id"], "") + ADD13.get(p["id"], "") + ADD14.get(p["id"], "") + ADD15.get(p["id"], "")
     checks.append({
         "property_id": p["id"],
         "quick_cmd": "./run.sh %s quick" % p["id"],
